@@ -1891,29 +1891,12 @@ fn analyze_type(
 		}
 		ValueType::Pointer { deref_type } =>
 		{
-			// The size of a pointer does not depend on the structure that it
-			// points to, hence `|:&S|` in the value of a constant does not
-			// make that constant contain S.
-			let is_pointer_to_structure = match deref_type.as_ref()
-			{
-				ValueType::UnresolvedStructOrWord { .. } => true,
-				ValueType::Struct { .. } => true,
-				ValueType::Word { .. } => true,
-				_ => false,
-			};
-			let context = if is_pointer_to_structure
-			{
-				analyzer.in_constexpr_of_constant.take()
-			}
-			else
-			{
-				None
-			};
+			// The size of a pointer does not depend on what it points to,
+			// hence `|:&S|` or `|:&[2]S|` in the value of a constant does
+			// not make that constant contain S.
+			let context = analyzer.in_constexpr_of_constant.take();
 			let deref_type = analyze_type(*deref_type, analyzer);
-			if is_pointer_to_structure
-			{
-				analyzer.in_constexpr_of_constant = context;
-			}
+			analyzer.in_constexpr_of_constant = context;
 			let deref_type = deref_type?;
 			Ok(ValueType::Pointer {
 				deref_type: Box::new(deref_type),
